@@ -1,0 +1,19 @@
+//go:build verif
+
+package api
+
+import (
+	"context"
+
+	"github.com/smallstep/certificates/acme"
+)
+
+// Thin wrappers for the C11 verification harness (/verif). Add-only; never built without -tags verif.
+
+// VerifChallengeTypes exposes challengeTypes.
+func VerifChallengeTypes(az *acme.Authorization) []acme.ChallengeType { return challengeTypes(az) }
+
+// VerifNewAuthorization exposes newAuthorization.
+func VerifNewAuthorization(ctx context.Context, az *acme.Authorization) error {
+	return newAuthorization(ctx, az)
+}
